@@ -171,7 +171,7 @@ extern "C" int h_dom(void) {
     Alloc& a = doc.GetAllocator();
     Node X, Y;                    // two roots: X starts as an object, Y as an array
     int mx, my;
-    if (parsed) {
+    if (parsed == 1) {
       static const char kText[] = "{\"a\":1,\"b\":[2,3],\"\":{\"a\":4}}";
       doc.Parse(kText, sizeof(kText) - 1);
       X = std::move(*static_cast<Node*>(&doc));
